@@ -176,6 +176,12 @@ def locate(src, scopes, has=None, first=False):
                 raise GenError("lost anchor: %s :: %s" % (src.rel, " :: ".join(scopes)))
             return (r[0], r[1], None)
         r = find_scope(toks, lo, hi, pat, has if last else None, first)
+        if r is None and last:
+            m2 = re.match(r"^(struct)\s+(\S+)$", _norm(pat))
+            if m2:
+                r2 = find_stmt_item(toks, lo, hi, m2.group(1), m2.group(2))
+                if r2 is not None:
+                    return (r2[0], r2[1], None)
         if r is None:
             raise GenError("lost anchor: %s :: %s (at %r)" % (src.rel, " :: ".join(scopes), pat))
         h, b, c = r
@@ -332,6 +338,58 @@ def find_loops(toks):
     return res
 
 
+def desugar_for(toks, k, itname, where):
+    """R5: rewrite the k-th loop (which must be a `for`) into the Rust reference desugaring
+         { let mut IT = EXPR; loop { match IT.next() { Some(PAT) => BODY None => break, } } }
+    `EXPR.enumerate()` with a tuple pattern `(i, x)` becomes an explicit usize counter."""
+    loops = find_loops(toks)
+    if k < 1 or k > len(loops):
+        raise GenError("lost anchor: desugar-for %d in %s" % (k, where))
+    kw, br = loops[k - 1]
+    if toks[kw].text != "for":
+        raise GenError("desugar-for %d in %s: loop is `%s`" % (k, where, toks[kw].text))
+    end = rl.match_close(toks, br)
+    # find `in` at depth 0 between kw and br
+    j = kw + 1
+    in_idx = None
+    while j < br:
+        t = toks[j]
+        if t.kind == "punct" and t.text in ("(", "["):
+            j = rl.match_close(toks, j) + 1
+            continue
+        if t.kind == "ident" and t.text == "in":
+            in_idx = j
+            break
+        j += 1
+    if in_idx is None:
+        raise GenError("desugar-for: no `in` in %s" % where)
+    pat = "".join(t.text for t in toks[kw + 1:in_idx]).strip()
+    expr = "".join(t.text for t in toks[in_idx + 1:br]).strip()
+    pre = ""
+    note = "R5:for-desugar"
+    m = re.match(r"^\(\s*(\w+)\s*,\s*(.+)\)$", pat, re.S)
+    inner_pre = ""
+    inner_post = ""
+    if expr.endswith(".enumerate()") and m:
+        expr = expr[: -len(".enumerate()")]
+        ctr = itname + "_i"
+        pre = "let mut %s: usize = 0; " % ctr
+        pat = m.group(2).strip()
+        inner_pre = "{ let %s = %s; %s += 1; " % (m.group(1), ctr, ctr)
+        inner_post = " }"
+        note = "R5:for-desugar+enumerate-counter"
+
+    def syn(text):
+        return [rl.Tok(t.kind, t.text, -1, -1) for t in rl.lex(text)]
+
+    head = syn("{ %slet mut %s = %s; loop {\nmatch %s.next() { Some(%s) => %s" % (pre, itname, expr, itname, pat, inner_pre))
+    tailt = syn("%s None => break, } } }" % inner_post)
+    body = ([toks[br], rl.Tok("marker", "FORSTART %d" % k, -1, -1)] + toks[br + 1:end]
+            + [rl.Tok("marker", "FOREND %d" % k, -1, -1), toks[end]])
+    ntoks = toks[:kw] + head + body + tailt + toks[end + 1:]
+    return ntoks, note
+
+
 # ---------------------------------------------------------------------------------------------
 # template processing
 
@@ -345,6 +403,9 @@ class Block:
         self.loops = {}      # k -> [(tline, text)]
         self.inserts = []    # (where, anchor, nth, text, tline)
         self.edits = []      # (mode, old, new, nth, tline)
+        self.desugar = []    # (loop index, iterator name, tline)
+        self.lpos = {}       # (k, where) -> [(tline, text)]  where in pre/start/end/post
+        self.fnstart = []    # [(tline, text)]
 
 
 _opt_re = re.compile(r"\{([a-z_]+)(?:=([^}]*))?\}")
@@ -420,6 +481,18 @@ def parse_template(text):
         m = re.match(r"^loop\s+(\d+)\s*\|\s?(.*)$", d)
         if m:
             cur.loops.setdefault(int(m.group(1)), []).append((ln, m.group(2)))
+            continue
+        m = re.match(r"^loop-(pre|start|end|post)\s+(\d+)\s*\|\s?(.*)$", d)
+        if m:
+            cur.lpos.setdefault((int(m.group(2)), m.group(1)), []).append((ln, m.group(3)))
+            continue
+        m = re.match(r"^fn-start\s*\|\s?(.*)$", d)
+        if m:
+            cur.fnstart.append((ln, m.group(1)))
+            continue
+        m = re.match(r"^desugar-for\s+(\d+)\s+(\w+)\s*$", d)
+        if m:
+            cur.desugar.append((int(m.group(1)), m.group(2), ln))
             continue
         m = re.match(r"^(before|after)\s+%s\s*(?:#(\d+))?\s*\|\s?(.*)$" % _q, d)
         if m:
@@ -584,24 +657,49 @@ def generate(unit, template_text, repo_root, units_dir=None):
                          for t in body_toks]
             pre_body = " let mut this = self;"
             rules.append("R1:mut-self")
-        # loops
-        if blk.loops:
+        for (k, itname, tl) in sorted(blk.desugar, reverse=True):
+            body_toks, note = desugar_for(body_toks, k, itname, where)
+            rules.append("%s (loop %d, iterator `%s`)" % (note, k, itname))
+        # structural markers for loops: invariants, pre/start/end/post inserts
+        want = set(blk.loops.keys()) | set(k for (k, w) in blk.lpos.keys())
+        if want:
             loops = find_loops(body_toks)
-            ins = {}
-            for k, lines in blk.loops.items():
+            before = {}   # token index -> [marker text] inserted before the token
+            after = {}
+            for k in sorted(want):
                 if k < 1 or k > len(loops):
                     raise GenError("lost anchor: loop %d of %s (has %d loops)" % (k, where, len(loops)))
-                ins[loops[k - 1][1]] = (k, lines)
+                kw, br = loops[k - 1]
+                close = rl.match_close(body_toks, br)
+                fs = [i for i, t in enumerate(body_toks) if t.kind == "marker" and t.text == "FORSTART %d" % k]
+                fe = [i for i, t in enumerate(body_toks) if t.kind == "marker" and t.text == "FOREND %d" % k]
+                if k in blk.loops:
+                    before.setdefault(br, []).append("INV %d" % k)
+                if (k, "pre") in blk.lpos:
+                    # a desugared `for` starts at the synthesized `{` four tokens before `loop`; find statement start
+                    j = kw
+                    while j > 0 and body_toks[j - 1].start == -1 and body_toks[j - 1].kind != "marker":
+                        j -= 1
+                    before.setdefault(j, []).append("PRE %d" % k)
+                if (k, "start") in blk.lpos:
+                    after.setdefault(fs[0] if fs else br, []).append("START %d" % k)
+                if (k, "end") in blk.lpos:
+                    before.setdefault(fe[0] if fe else close, []).append("END %d" % k)
+                if (k, "post") in blk.lpos:
+                    j = close
+                    while j + 1 < len(body_toks) and body_toks[j + 1].start == -1 and body_toks[j + 1].kind != "marker":
+                        j += 1
+                    after.setdefault(j, []).append("POST %d" % k)
             nt = []
             for idx, t in enumerate(body_toks):
-                if idx in ins:
-                    k, lines = ins[idx]
-                    nt.append(rl.Tok("marker", "\n/*@@LOOP %d@@*/\n" % k, 0, 0))
+                for mk in before.get(idx, []):
+                    nt.append(rl.Tok("marker", mk, -1, -1))
                 nt.append(t)
+                for mk in after.get(idx, []):
+                    nt.append(rl.Tok("marker", mk, -1, -1))
             body_toks = nt
-        body_text = "".join(t.text for t in body_toks)
-        if pre_body:
-            body_text = "{" + pre_body + body_text[1:]
+        if blk.fnstart:
+            body_toks = [body_toks[0], rl.Tok("marker", "FNSTART", -1, -1)] + body_toks[1:]
         # header
         ret = sig["ret"]
         sig_line = "%sfn %s%s(%s)" % (sig["prefix"], name, sig["generics"], params)
@@ -627,22 +725,31 @@ def generate(unit, template_text, repo_root, units_dir=None):
                 cid = "%s#%d" % (ckind, counts[ckind])
                 clauses.append(dict(id=cid, text=text.strip(), tline=tl))
             g.emit("    " + text, kind=ckind or "contract", fn=fid, ord=cid, tline=tl, props=props)
-        # body with inserts; map body lines back to source lines
-        blines = body_text.split("\n")
-        # source line of body start: count newlines in stripped text before body (approximation:
-        # R0 only removes whole lines before `fn`, so compute from the end instead)
-        nmark = len([l for l in blines if l.startswith("/*@@LOOP")])
-        nreal = len(blines) - 2 * nmark   # every marker adds its own line and splits one line in two
-        srcl = end_line - (nreal - 1)
+        # body lines: walk the tokens; markers become directive lines; every line keeps the source
+        # line of its first original token (line numbers are exact when rewrites keep the line count)
+        total_nl = stext.count("\n")
+
+        def src_line_of(tok):
+            if tok.start is None or tok.start < 0:
+                return None
+            return end_line - (total_nl - stext.count("\n", 0, tok.start))
+
         out_lines = []   # (text, info)
-        after_marker = False
-        for l in blines:
-            m = re.match(r"^/\*@@LOOP (\d+)@@\*/$", l)
-            if m:
-                k = int(m.group(1))
-                c = 0
-                lk = "invariant"
-                for (tl, text) in blk.loops[k]:
+        cur_txt = []
+        cur_src = [None]
+
+        def flush(force=False):
+            txt = "".join(cur_txt)
+            if txt.strip() or force:
+                out_lines.append((txt.rstrip(), dict(kind="body", fn=fid, src=rel, srcline=cur_src[0], props=props)))
+            del cur_txt[:]
+            cur_src[0] = None
+
+        def emit_texts(lst, kind, k=None, lk0=None):
+            c = 0
+            lk = lk0
+            for (tl, text) in lst:
+                if kind == "loopinv":
                     mm = re.match(r"^\s*(invariant_except_break|invariant|ensures|decreases)\b", text)
                     if mm:
                         lk = mm.group(1)
@@ -653,13 +760,42 @@ def generate(unit, template_text, repo_root, units_dir=None):
                     cid = "loop%d/%s#%d" % (k, lk, c)
                     clauses.append(dict(id=cid, text=text.strip(), tline=tl))
                     out_lines.append(("        " + text, dict(kind="loopinv", fn=fid, ord=cid, tline=tl, props=props)))
-                after_marker = True
+                else:
+                    out_lines.append((text, dict(kind="hint", fn=fid, tline=tl, props=props)))
+
+        if pre_body:
+            body_toks = [body_toks[0], rl.Tok("ws", pre_body, -1, -1)] + body_toks[1:]
+        for t in body_toks:
+            if t.kind == "marker":
+                mm = re.match(r"^(INV|PRE|START|END|POST|FORSTART|FOREND|FNSTART)(?: (\d+))?$", t.text)
+                kind_, k = mm.group(1), int(mm.group(2) or 0)
+                if kind_ in ("FORSTART", "FOREND"):
+                    continue
+                flush()
+                if kind_ == "INV":
+                    emit_texts(blk.loops[k], "loopinv", k, "invariant")
+                elif kind_ == "FNSTART":
+                    emit_texts(blk.fnstart, "hint")
+                else:
+                    emit_texts(blk.lpos[(k, kind_.lower())], "hint")
                 continue
-            if after_marker:
-                srcl -= 1
-                after_marker = False
-            out_lines.append((l, dict(kind="body", fn=fid, src=rel, srcline=srcl, props=props)))
-            srcl += 1
+            parts = t.text.split("\n")
+            for pi, part in enumerate(parts):
+                if pi > 0:
+                    flush(force=True)
+                if part:
+                    if cur_src[0] is None and t.kind != "ws":
+                        cur_src[0] = src_line_of(t)
+                    cur_txt.append(part)
+        flush()
+        # fill unknown source lines from the previous known one
+        last = start_line
+        for (l, info) in out_lines:
+            if info.get("kind") == "body":
+                if info.get("srcline") is None:
+                    info["srcline"] = last
+                else:
+                    last = info["srcline"]
         # merge the split caused by markers: a marker was placed before `{`; the text before it ended
         # with "\n" and the `{` line begins after.  That is fine for rustc (whitespace).
         # anchored inserts
